@@ -200,7 +200,7 @@ pub fn plan(tier: &str) -> Plan {
     let cfg = ExecCfg::default();
     let mut units = Vec::new();
     for sc in scenarios(thorough) {
-        let bound = if thorough { 2 } else { 1 };
+        let bound = if thorough { 3 } else { 2 };
         units.push(Unit::explore(Job::new(format!("c04/{}", sc.name()), cfg.clone(), Some(bound), body(sc, oracle))));
     }
     // the grid once more on the async-trait + monitors (+ cluster) build of the harness; there the
@@ -219,7 +219,7 @@ pub fn plan(tier: &str) -> Plan {
             sc.closer = Closer::Abort(k);
             let mut c = cfg.clone();
             c.cuts = vec![CutSpec { sel: Sel::Name("A".into()), at_poll: k }];
-            units.push(Unit::explore(Job::new(format!("c04/{}", sc.name()), c, Some(if thorough { 2 } else { 1 }), body(sc, oracle))));
+            units.push(Unit::explore(Job::new(format!("c04/{}", sc.name()), c, Some(if thorough { 3 } else { 2 }), body(sc, oracle))));
         }
     }
     Plan {
